@@ -5,7 +5,7 @@
 
 use crate::common::*;
 use crate::model::KsModel;
-use crate::{ensure, ensure_eq_bytes};
+use crate::{ensure, ensure_eq_bytes, pick};
 use vp_base::obj::*;
 use vp_base::tape::{self, Tape};
 
@@ -18,7 +18,7 @@ a byte carry or wraps 2^w inside the request, or block index >= 2^16; distinct b
 pub fn check(ctx: &Ctx, t: &mut Tape<'_>, r: &mut Report) -> CheckResult {
     let (w, be) = t.pick(&[(32u32, true), (32, false), (64, true), (64, false), (128, true), (128, false)]);
     let kind = StreamKind::Ctr(w, be);
-    let suite = ctx.pick_suite(t, |s| s.stream(kind).is_some());
+    let suite = pick!(ctx, t, r, |s| s.has_stream(kind));
     let f = suite.stream(kind).unwrap();
     let bs = suite.info.bs;
     let key = gen_key(t, suite);
